@@ -408,7 +408,7 @@ class Engine:
         extra = dict(self.entry_names())
         for g, t in self.entry.ghost.items():
             extra[g + '__pre'] = Num(t) if t.sort() != B else BoolV(t)
-        extra['result'] = val
+        extra[self.c.get('result_name', 'result')] = val        # result_name: for functions that have a local called `result`
         lemmas_from = set(self.c.get('ensures_as_lemmas', ()))
         for name, text in self.c.get('ensures', {}).items():
             self._last_skolems = []
@@ -1236,7 +1236,11 @@ class Engine:
         if isinstance(op, ast.Add) and isinstance(l, Tup) and isinstance(r, Tup):
             return Tup(l.items + r.items, l.kind, taint=tt)
         if isinstance(op, ast.Mod) and isinstance(l, Const) and isinstance(l.v, str):
-            return Obj(self.fresh('str', V), cls='str', taint=tt)
+            try:
+                # '%s-fmt' % x is a pure function of the format and of x
+                return Obj(self.uf('str_format', V, V, V)(self.to_V(l), self.to_V(r)), cls='str', taint=tt)
+            except Exception:
+                return Obj(self.fresh('str', V), cls='str', taint=tt)
         name = {ast.Add: 'add', ast.Sub: 'sub', ast.Mult: 'mul', ast.Div: 'div', ast.MatMult: 'matmul',
                 ast.Pow: 'pow', ast.BitAnd: 'and', ast.BitOr: 'or', ast.Mod: 'mod', ast.FloorDiv: 'floordiv',
                 ast.BitXor: 'xor', ast.LShift: 'lshift', ast.RShift: 'rshift'}.get(type(op))
